@@ -217,7 +217,7 @@ package router
 //@   ensures err == nil ==> r != nil && fresh(r) && wfMsg(r) && distinctFreshSecs(r) && len(r.Questions) <= 65535 && len(r.Answers) <= 65535 && len(r.Authorities) <= 65535 && len(r.Additionals) <= 65535
 //@   ensures err != nil ==> r == nil
 // a decoded reply is made of fresh objects only (its additional array and the records in it)
-//@ spec func distinctFreshSecs(m *dnsmsg.Msg) bool = (m.Additionals == nil || fresh(m.Additionals)) && forall(k, 0, len(m.Additionals), fresh(m.Additionals[k]))
+//@ spec func distinctFreshSecs(m *dnsmsg.Msg) bool = (m.Additionals == nil || fresh(m.Additionals)) && (m.Questions == nil || fresh(m.Questions)) && (m.Answers == nil || fresh(m.Answers)) && (m.Authorities == nil || fresh(m.Authorities)) && freshElems(m)
 
 // packReq: the upstream query is RD=1, opcode QUERY, exactly the request's question (a private copy), no answer or
 // authority records and exactly one additional record: the proxy's own OPT (udp size 1200), whose only option
@@ -260,7 +260,9 @@ package router
 //@   ensures err == nil ==> resp != nil && fresh(resp) && wfMsg(resp) && noOPT(resp.Additionals) && (resp.Additionals == nil || fresh(resp.Additionals)) && len(resp.Questions) <= 65535 && len(resp.Answers) <= 65535 && len(resp.Authorities) <= 65535 && len(resp.Additionals) <= 65535
 //@   ensures err != nil ==> resp == nil
 //@   ensures [C10:at-most-one-exchange] nEx <= 1
-//@   ensures [C03:reply-is-about-the-question-asked] err == nil ==> len(resp.Questions) <= 1 && (len(resp.Questions) == 1 ==> sameQuestionCI(resp.Questions[0], q))
+//@   ensures [C03:reply-is-about-the-question-asked] err == nil ==> len(resp.Questions) <= 1
+// (checked where the reply is accepted; RemoveEDNS0 afterwards touches additional records only)
+//@   callsite RemoveEDNS0?: [C03:reply-is-about-the-question-asked] len(arg0.Questions) <= 1 && (len(arg0.Questions) == 1 ==> sameQuestionCI(arg0.Questions[0], q))
 //@   callsite Exchange?: [C10:that-upstream-that-query] arg0 == upstream && arg1 == ctx && sameSlice(arg2, gw, 0, len(gw))
 
 //@ func (r *router) handleReq(ctx context.Context, q *dnsmsg.Question, rc *RequestContext)
@@ -648,3 +650,15 @@ package router
 //@   loop 2:
 //@     modifies nothing
 //@     invariant closersOK(r)
+
+//@ func replyMatchesQuestion(resp *dnsmsg.Msg, q *dnsmsg.Question) (ok bool)
+//@   props C03 C01
+//@   requires resp != nil && q != nil && forall(k, 0, len(resp.Questions), resp.Questions[k] != nil)
+//@   modifies nothing
+//@   ensures [C03:accepted-replies-are-about-the-question] ok ==> len(resp.Questions) <= 1 && (len(resp.Questions) == 1 ==> sameQuestionCI(resp.Questions[0], q))
+//@   loop 1:
+//@     invariant len(resp.Questions) <= 1 && rangeindex <= 0
+//@     invariant rangeindex >= 0 ==> sameQuestionCI(resp.Questions[0], q)
+//@   loop 2:
+//@     invariant len(resp.Questions) == 1 && rangeindex == 0 && rq == resp.Questions[0] && rq.Type == q.Type && rq.Class == q.Class && len(rq.Name) == len(q.Name)
+//@     invariant forall(k, 0, rangeindex_2 + 1, lowerB(rq.Name[k]) == lowerB(q.Name[k]))
